@@ -211,8 +211,16 @@ func (rs *RuneSet) insertPage(page runePage, pos int) {
 	(*rs)[pos] = page
 }
 
+// isValidRune returns false for the values a page reference can not represent:
+// they would alias a rune of the set
+func isValidRune(r rune) bool { return 0 <= r && r <= 0xFFFFFF }
+
 // Add adds `r` to the rune set.
+// Values which are negative or above 0xFFFFFF are ignored.
 func (rs *RuneSet) Add(r rune) {
+	if !isValidRune(r) {
+		return
+	}
 	leaf := rs.findOrCreatePage(uint16(r >> 8))
 	b := &leaf[(r&0xff)>>5] // (r&0xff)>>5 is the index in the page
 	*b |= (1 << (r & 0x1f)) // r & 0x1f is the bit in the uint32
@@ -220,6 +228,9 @@ func (rs *RuneSet) Add(r rune) {
 
 // Delete removes the rune from the rune set.
 func (rs RuneSet) Delete(r rune) {
+	if !isValidRune(r) {
+		return
+	}
 	leaf := rs.findPage(uint16(r >> 8))
 	if leaf == nil {
 		return
@@ -231,6 +242,9 @@ func (rs RuneSet) Delete(r rune) {
 
 // Contains returns `true` if `r` is in the set.
 func (rs RuneSet) Contains(r rune) bool {
+	if !isValidRune(r) {
+		return false
+	}
 	leaf := rs.findPage(uint16(r >> 8))
 	if leaf == nil {
 		return false
